@@ -255,6 +255,12 @@ impl Expression for ExpressionIndex {
             (Err(err), _) => Err(err),
             (_, Err(err)) => Err(err),
             (Ok(left_value), Ok(index_value)) => {
+                // Same object on both sides (e.g. "v[v]"): work on a copy of the index to avoid a deadlock.
+                let index_value = if Arc::ptr_eq(&left_value.arc, &index_value.arc) {
+                    create_data_arc(left_value.lock().unwrap().clone())
+                } else {
+                    index_value
+                };
                 let mut data_ref = left_value.lock().unwrap();
                 let data = data_ref.deref_mut();
                 match data {
@@ -385,8 +391,9 @@ impl Expression for ExpressionAssign {
                 Ok(v) => match right_result {
                     Err(err) => Err(err),
                     Ok(right_arc) => {
-                        let right_guard = right_arc.lock().unwrap();
-                        match right_guard.deref() {
+                        // Copy the value first, left and right may be the same object ("a = a").
+                        let right_guard = right_arc.lock().unwrap().clone();
+                        match &right_guard {
                             Data::Integer(_)
                             | Data::Double(_)
                             | Data::String(_)
@@ -398,9 +405,7 @@ impl Expression for ExpressionAssign {
                                 if v.is_readonly() {
                                     Err(format!("Can't set read-only {v}"))
                                 } else {
-                                    right_guard
-                                        .deref()
-                                        .clone_into(v.lock().unwrap().deref_mut());
+                                    right_guard.clone_into(v.lock().unwrap().deref_mut());
                                     Ok(v.clone())
                                 }
                             }
@@ -451,11 +456,9 @@ impl Expression for ExpressionAssignUndefined {
             match left_result {
                 Err(err) => Err(err),
                 Ok(left_value) => {
-                    right_result
-                        .lock()
-                        .unwrap()
-                        .deref()
-                        .clone_into(left_value.lock().unwrap().deref_mut());
+                    // Copy the value first, left and right may be the same object.
+                    let right_data = right_result.lock().unwrap().clone();
+                    right_data.clone_into(left_value.lock().unwrap().deref_mut());
                     Ok(left_value.clone())
                 }
             }
